@@ -1,10 +1,12 @@
 #!/bin/sh
 # Runs every seeded change against its own property's check (and extra properties given in seeded/<id>/also.txt).
 # Writes seeded/RESULTS.tsv:  seed  property  exit  violation-lines  first failing obligation
-OUT=/verif/seeded/RESULTS.tsv; : > $OUT
+export PYVC_EVIDENCE_DIR=${PYVC_EVIDENCE_DIR:-/tmp/pyvc_evidence_scratch}   # runs on modified trees never overwrite /verif/evidence
+OUT=/verif/seeded/RESULTS.tsv; [ -n "$APPEND" ] || : > $OUT      # APPEND=1 SEEDS="id id ...": only those, appended
 [ -z "$(git -C /repo status --porcelain --untracked-files=no)" ] || { echo "/repo not clean"; exit 3; }
 for D in /verif/seeded/*/; do
   ID=$(basename $D); [ -f $D/patch.diff ] || continue
+  [ -z "$SEEDS" ] || echo " $SEEDS " | grep -q " $ID " || continue
   P=$(python3 -c "import json;print(json.load(open('$D/meta.json'))['property'])")
   ALSO=$(cat $D/also.txt 2>/dev/null)
   git -C /repo apply $D/patch.diff 2>/dev/null || { echo "$ID: patch failed"; continue; }
